@@ -8,10 +8,16 @@ The link value is made an ARBITRARY admissible number by re-parametrising the of
 Step-link EQUALITY clause (Dx = 1, one noise unit, square A, both signs of the input weight): the value
 returned by integrate_log_conditional_y equals the true expectation, which here has a closed form in
 Phi / phi (two half-lines with constant covariance) -- decided with Phi atoms (gtverif/phi.py).
-NOT covered (declined, see DESIGN.md): 'bound <= true expectation' / quadratic tightness for the exp,
-cosh-1 and rectified-linear links -- the right-hand side has no closed form; zero-weight exactness
-needs ln(cosh(.)) of a symbolic argument (ln of a sum: outside the symbolic domain); the step equality
-for Dx >= 2 needs truncated moments of a 2-d Gaussian."""
+Zero-weight EXACTNESS clause (exp, cosh-1): all input weights 0, offsets w0 = +-c (c > 0, both signs): the returned
+value equals the expected log-density of the then homoscedastic model.  cosh / tanh / exp of the offset and of the
+variational parameter omega = |w0| are made rational by the exp alias T = exp(c/2) (an independent positive field
+generator; ln T = c/2 is applied; see symdom.Ctx.exp_subst), the library's while_loop is decided (zero iterations).
+Quadratic TIGHTNESS, first-order condition (exp, cosh-1): with W = [w0, eps*wdir] the derivative of the returned value
+w.r.t. eps at eps = 0 (jax.jvp through the real code, stop_gradient made transparent) equals the derivative of the true
+expectation at eps = 0, which has a closed form although the expectation itself does not; with exactness: gap = o(eps).
+NOT covered (declined, see DESIGN.md): 'bound <= true expectation' for eps > 0 (exp, cosh-1) and for the
+rectified-linear link at all -- the right-hand side has no closed form; the step equality for Dx >= 2 needs
+truncated moments of a 2-d Gaussian."""
 from fractions import Fraction
 import itertools
 import numpy as np
@@ -25,10 +31,12 @@ from ..case import Case
 PROP = "C17"
 
 BOUNDS = {
-    "quick": "step-link equality of the bound at Dx=1, Dk=1, Dy=Da in {1,2}, both weight signs; coherence: all four links; (Dy,Da,Dk) in {(1,1,1),(2,2,1),(2,2,2)} (A square) and {(1,2,1),(1,2,2),(2,3,2)} (A wide, Da>Dy); Dx<=2; N=2 points; link values arbitrary (exp, cosh-1) or on either side of the kink (step, relu)",
+    "quick": "zero-weight exactness and first-order tightness (exp, cosh-1): (Dx,Dy=Da,Dk) in {(1,1,1),(2,2,1),(1,2,2)}, every sign pattern of the offsets, offsets != 0, N=1 observation; step-link equality of the bound at Dx=1, Dk=1, Dy=Da in {1,2}, both weight signs; coherence: all four links; (Dy,Da,Dk) in {(1,1,1),(2,2,1),(2,2,2)} (A square) and {(1,2,1),(1,2,2),(2,3,2)} (A wide, Da>Dy); Dx<=2; N=2 points; link values arbitrary (exp, cosh-1) or on either side of the kink (step, relu)",
     "thorough": "adds Dy=Da=3 with A bound to generic rationals, Dx=3",
 }
-ASSUMPTIONS = ["claimed: the coherence clause (all links) and the step-link equality for Dx=1; declined: lb <= true expectation and quadratic tightness for exp / cosh-1 / rectified-linear (no closed-form right-hand side; the property's own oracle is adaptive quadrature), zero-weight exactness (ln of a sum)"]
+ASSUMPTIONS = ["claimed: the coherence clause (all links), the step-link equality for Dx=1, exactness at zero input weights (exp, cosh-1; non-zero offsets) and the first-order tightness condition d gap/d eps = 0 at eps = 0 (exp, cosh-1); declined: lb <= true expectation away from zero weights for exp / cosh-1 and everything about the rectified-linear bound (no closed-form right-hand side; the property's own oracle is adaptive quadrature)",
+               "exp alias: T_k = exp(c_k/2) is an independent positive generator with ln T_k = c_k/2 applied and T_k > 1 assumed; an identity over Q(.., c_k, T_k) holds in particular at T_k = exp(c_k/2) (unsat is sound); models are replayed on the real code",
+               "first-order tightness differentiates the real code with jax.jvp after replacing lax.stop_gradient by the identity in the harness process (total derivative of the returned value)"]
 
 
 def coherence_case(link, Dx, Dy, Da, Dk, signs=None, semi=(), timeout=600, prop=PROP):
@@ -241,6 +249,61 @@ def zero_weight_case(link, Dx, Dy, Dk, signs, timeout=900):
     return Case(cid, PROP, cfg, declare, fn, claims, timeout=timeout)
 
 
+def tightness_case(link, Dx, Dy, Dk, signs, timeout=1200):
+    """C17, 'the gap vanishes quadratically as the input weights shrink' (exp, cosh-1), restated as the first-order
+    condition at zero weights: with W = [w0, eps * wdir], d/d eps of the returned value at eps = 0 equals d/d eps of the
+    true expected log-density at eps = 0 (which, unlike the expectation itself, has a closed form:
+    E_p[ d/dh ln N(y; Mx+b, Sigma(h)) |_{h=w0} * wdir'x ]).  Together with exactness at eps = 0 the gap is o(eps).
+    The derivative of the real code is taken by jax.jvp with lax.stop_gradient made transparent (the total derivative
+    of the returned VALUE is wanted, including the dependence through the variational parameters)."""
+    sg = "".join("p" if s > 0 else "m" for s in signs)
+    cid = f"C17/first-order-tight/{link}/Dx{Dx}Dy{Dy}Da{Dy}Dk{Dk}/w0{sg}"
+    cfg = dict(clause="gap has zero slope at zero input weights (quadratic tightness, first-order condition)", link=link, Dx=Dx, Dy=Dy, Da=Dy, Dk=Dk, offset_signs=list(signs))
+
+    def declare(b):
+        _declare_zero_weight(b, Dx, Dy, Dk, signs, True)
+
+    def fn(**A):
+        import jax
+        import jax.numpy as jnp
+        from jax import lax
+        factor, measure, pdf, conditional = gt()
+        px = pdf.GaussianPDF(Sigma=A["Sx"], mu=A["mx"])
+
+        def f(eps):
+            W = jnp.concatenate([A["w0"][:, None], eps * A["wdir"]], axis=1)
+            c = make_het(link, {"M": A["M"], "bv": A["bv"], "A": A["A"], "W": W})
+            return c.integrate_log_conditional_y(px, y=A["y"])
+        orig = lax.stop_gradient
+        lax.stop_gradient = lambda x: x
+        try:
+            val, dval = jax.jvp(f, (jnp.zeros(()),), (jnp.ones(()),))
+        finally:
+            lax.stop_gradient = orig
+        return {"val": val, "dval": dval}
+
+    def claims(I, O, ops):
+        Sg = _const_cov(I, ops, link, Dy, Dk)
+        Li, d = spec.inv(ops, Sg)
+        mom = spec.Moments(ops, I["mx"][0], I["Sx"][0])
+        res = _residual_polys(I, ops, Dx, Dy)
+        A_ = I["A"][0]
+        tot = ops.zero()
+        for k in range(Dk):
+            g = spec.mv(Li, A_[:, k])                       # Sigma^-1 a_k
+            u = spec.p_const(Dx, ops.zero())
+            for i in range(Dy):
+                u = spec.p_add(u, spec.p_scale(res[i], g[i]))
+            aSa = sum((A_[i, k] * g[i] for i in range(Dy)), ops.zero())
+            inner = spec.p_add(spec.p_mul(u, u), spec.p_const(Dx, -aSa))
+            hdir = spec.p_affine(ops, [I["wdir"][k, j] for j in range(Dx)], ops.zero())
+            tot = tot + ops.c(Fraction(1, 2)) * _link_deriv(ops, link, I["w0"][k]) * mom.expect(spec.p_mul(inner, hdir))
+        return [("zero weights: value", O["val"], _homoscedastic_expectation(I, ops, link, Dx, Dy, Dk)),
+                ("d/d eps of integrate_log_conditional_y at eps=0 = d/d eps of E_p[ln p(y|x)] at eps=0", O["dval"], tot)]
+
+    return Case(cid, PROP, cfg, declare, fn, claims, timeout=timeout)
+
+
 def _const_cov(I, ops, link, Dy, Dk):
     A_ = I["A"][0]
     Sg = spec.mm(A_, A_.T)
@@ -278,6 +341,7 @@ def cases(tier, seed=0):
         for (Dx, Dy, Dk) in ((1, 1, 1), (2, 2, 1), (1, 2, 2)):
             for signs in itertools.product((1, -1), repeat=Dk):
                 out.append(zero_weight_case(link, Dx, Dy, Dk, list(signs)))
+                out.append(tightness_case(link, Dx, Dy, Dk, list(signs)))
     shapes = [(1, 1, 1, 1), (2, 2, 2, 1), (2, 2, 2, 2), (1, 1, 2, 1), (1, 1, 2, 2), (2, 2, 3, 2)]   # (Dx, Dy, Da, Dk)
     for link in ("exp", "cosh"):
         for (Dx, Dy, Da, Dk) in shapes:
